@@ -241,3 +241,17 @@ pub fn hash_str(s: &str) -> u64 {
 }
 
 pub struct Args { pub seed: u64, pub n: u64, pub out: String, pub replay: Option<String>, pub tier: String }
+
+/// `failing_input.kind` of a replay file ("" when absent): lets a check re-run the probe a recorded failure came from
+pub fn replay_kind(path: &str) -> String {
+    std::fs::read_to_string(path).ok().and_then(|s| serde_json::from_str::<serde_json::Value>(&s).ok())
+        .and_then(|v| v["failing_input"]["kind"].as_str().map(|s| s.to_string())).unwrap_or_default()
+}
+/// run `probe`, print its monitor failures, exit 1 if there are any
+pub fn replay_probe(out: &mut Out, probe: &mut dyn FnMut(&mut Out)) -> ! {
+    probe(out);
+    for f in &out.monitor_failures { println!("REPLAY property predicate false: {}", f["what"]); }
+    let bad = !out.monitor_failures.is_empty();
+    if !bad { println!("REPLAY: the property predicate holds"); }
+    std::process::exit(if bad { 1 } else { 0 })
+}
